@@ -16,6 +16,7 @@ import EvalexprVerif.Proofs.AgreeToken
 import EvalexprVerif.Proofs.LexRoundtrip
 import EvalexprVerif.Proofs.LexExt
 import EvalexprVerif.Model.Interface
+import EvalexprVerif.Proofs.AgreeFnTokensToTree
 
 namespace Evalexpr.Spec.C13
 open Evalexpr Evalexpr.Spec
@@ -61,6 +62,21 @@ theorem C13_main (ts : List Token) (h : illFormed ts = true) (s : St) :
     | ok t =>
       have hd := C13_operand ts hl t ht
       exact C13_deficient t hd s
+
+/-- **C13 about the code as translated on this run**: the rendered `tokens_to_operator_tree` terminates on EVERY token
+sequence; it rejects unbalanced and juxtaposed input, never reports balanced input as unbalanced, and a tree it builds for
+input that lacks an operand is deficient (and therefore never evaluates, `C13_deficient`) -/
+theorem C13_generated (ts : List Token) :
+    ∃ r, Gen.tokens_to_operator_tree ts = some r ∧
+      (balanced ts = false → ∃ e, r = .error e) ∧
+      (juxtaposedIn none ts = true → ∃ e, r = .error e) ∧
+      (balanced ts = true → r ≠ .error .unmatchedLBrace ∧ r ≠ .error .unmatchedRBrace) ∧
+      (lacksOperandIn none ts = true → ∀ t, r = .ok t → deficient t = true) := by
+  refine ⟨tokensToOperatorTree ts, AgreeFn.fn_tokens_to_operator_tree_agree ts, ?_, ?_, ?_, ?_⟩
+  · exact C13_unbalanced ts
+  · exact C13_juxtaposed ts
+  · exact C13_balanced_ok ts
+  · intro h t ht; exact C13_operand ts h t ht
 
 /-- a typed projection never turns a failure into a success -/
 theorem project_ok_inv (k : Kind) (r : Res Value) (v : Value) (h : k.project r = .ok v) : ∃ w, r = .ok w := by
